@@ -220,3 +220,13 @@ impl Default for NextKeyU32 {
         Self::new()
     }
 }
+
+/// `ComponentAccess::matches_archetype` for the archetype with exactly `components`.
+pub fn ca_matches(ca: &crate::access::ComponentAccess, components: &[u32]) -> bool {
+    ca.matches_archetype(|idx| components.contains(&idx.0))
+}
+
+/// `ComponentAccess::collect_conflicts`, in the order the set yields them.
+pub fn ca_conflicts(ca: &crate::access::ComponentAccess) -> Vec<u32> {
+    ca.collect_conflicts().into_iter().map(|c| c.0).collect()
+}
